@@ -23,7 +23,13 @@ each argument, auto-escape on and off):
       run saw a failed lookup; in particular never on the undeleted data of a
       program all of whose references resolve;
   (4) when the probe sees no failed lookup all policies give one outcome;
-  (5) adding a variable the program never mentions changes nothing.
+  (5) adding a variable the program never mentions changes nothing;
+  (6) laziness: at every short-circuit site (multi-value `when` after a match, right
+      operand of and/or after a deciding left operand, ternary branch not taken,
+      elsif conditions and blocks after a true branch, for/else bodies not entered,
+      later `when` blocks) deleting a variable that must not be reached changes
+      nothing under any policy;
+every template case is rendered through render() and render_async().
 """
 
 from __future__ import annotations
@@ -929,7 +935,7 @@ def dunder_cases() -> list[dict[str, Any]]:
 
 
 VALUES: list[Any] = [None, True, False, 0, 1, 2, -1, "", "a", "ab", "b,a", "2", " 7 ", "x", "size", [], [1], [3, 1, 2],
-                     ["b", "a"], [None], [False], [0], [[1, 2], [3]], [1, "a"], {}, {"a": 1}, {"a": None, "c": "x"},
+                     ["b", "a"], [None], [False], [0], [[1, 2], [3]], [1, "a"], [True, 1, 0, False], [1, True, "a"], ["b", "a", "b"], {}, {"a": 1}, {"a": None, "c": "x"},
                      [{"a": 1}, {"a": 2, "c": 1}, {"c": 3}], {"size": 9, "first": "F"}]
 
 
@@ -1190,7 +1196,7 @@ def main(chk: C.Check, build: C.Build) -> None:
     cases: list[tuple[list[tuple], dict[str, Any], tuple, bool]] = []
     site = site_programs()
     if not thorough:
-        site = [x for x in site if r.random() < 0.07]
+        site = [x for x in site if r.random() < 0.05]
     for prog, data in site:
         for sub, d in deletions(prog, data, r, 2, 2):
             cases.append((prog, d, sub, False))
@@ -1202,19 +1208,34 @@ def main(chk: C.Check, build: C.Build) -> None:
             dels = dels[:1] + r.sample(dels[1:], 7)
         for sub, d in dels:
             cases.append((prog, d, sub, False))
+    # every short-circuit site, with every subset of its references deleted
+    lazy = lazy_programs()
+    unreached_of: dict[str, tuple[set, dict]] = {}
+    for prog, data, unreached in lazy:
+        unreached_of[p_block(prog)] = (set(unreached), {})
+        for sub, d in deletions(prog, data, r, 8, 0):
+            cases.append((prog, d, sub, True))
 
     items = []
-    dist = {"programs": len(site) + nprog, "ok": 0, "UndefinedError": 0, "other_error": 0, "miss": 0,
+    dist = {"programs": len(site) + nprog + len(lazy), "ok": 0, "UndefinedError": 0, "other_error": 0, "miss": 0,
             "strict_ok_with_missing": 0, "falsy_ok_strict_raises": 0}
     nontrivial = set()
     samples = []
-    for prog, data, sub, _ in cases:
+    for prog, data, sub, is_lazy in cases:
         src = p_block(prog)
         outs = {pol: render_impl(src, data, pol) for pol in POLS}
+        outs_a = {pol: render_impl_async(src, data, pol) for pol in POLS}
         acc: list[tuple] = []
         refs_of_block(prog, acc)
         complete = all(resolves(data, x) for x in acc)
         oracle(chk, src, data, outs, complete=complete)
+        if outs_a != outs:
+            oracle(chk, src, data, outs_a, complete=complete, what="async")
+            chk.finding("sync-async-differ", f"render and render_async differ: {outs!r} vs {outs_a!r}: {src!r}",
+                        {"source": src, "data": data, "sync": outs, "async": outs_a})
+        if is_lazy:
+            unreached, seen_outs = unreached_of[src]
+            seen_outs[frozenset(sub)] = (outs, outs_a)
         # a variable the program never mentions is invisible (all policies)
         if "qq_unused" not in src:
             for pol in ("S", "D") if not thorough else POLS:
@@ -1233,6 +1254,9 @@ def main(chk: C.Check, build: C.Build) -> None:
             nontrivial.add(src + repr(data))
         cp, cd = c_block(prog), c_data(data)
         checks = " && ".join(f"agree_s (render {CPOL[pol]} {FUEL}%nat p d) {c_outcome(outs[pol])}" for pol in POLS)
+        for pol in POLS:          # the async twin must agree with the model too
+            if outs_a[pol] != outs[pol]:
+                checks += f" && agree_s (render {CPOL[pol]} {FUEL}%nat p d) {c_outcome(outs_a[pol])}"
         items.append({"case": f"(let p := {cp} in let d := {cd} in {checks})",
                       "model": f"(let p := {cp} in let d := {cd} in map (fun pol => render pol {FUEL}%nat p d) [PDefault; PStrict; PFalsy; PProbe])",
                       "inside": f"(let p := {cp} in let d := {cd} in forallb (fun pol => inside_s (render pol {FUEL}%nat p d)) [PDefault; PStrict; PFalsy; PProbe])",
@@ -1240,6 +1264,28 @@ def main(chk: C.Check, build: C.Build) -> None:
         if outs["P"][0] == "miss" and len(src) < 120 and (len(samples) < 2 or (len(samples) < 6 and r.random() < 0.01)):
             samples.append({"source": src, "deleted": [list(x) for x in sub], "data_keys": sorted(data), "outcomes": outs})
 
+    # directed oracle for laziness (independent of the model): deleting variables that
+    # the render must never reach changes nothing, under every policy, sync and async
+    nlazy = 0
+    for src, (unreached, seen_outs) in unreached_of.items():
+        for sub, got in seen_outs.items():
+            # only when nothing that IS reached has been deleted (otherwise another
+            # value decides and the "unreached" ones may be reached)
+            base = frozenset()
+            if not sub or not set(sub) <= unreached or base not in seen_outs:
+                continue
+            nlazy += 1
+            if seen_outs[base] != got:
+                gone = sorted(x[0] for x in sub if x in unreached)
+                for mode, i in (("render", 0), ("render_async", 1)):
+                    for pol in POLS:
+                        if seen_outs[base][i][pol] != got[i][pol]:
+                            nm = {"D": "Undefined", "S": "StrictUndefined", "F": "FalsyStrictUndefined", "P": "probe"}[pol]
+                            chk.finding(f"unreached-variable-evaluated:{nm}",
+                                        f"{mode} under {nm}: deleting {gone}, which the render must not reach, changed "
+                                        f"{seen_outs[base][i][pol]!r} into {got[i][pol]!r}: {src!r}",
+                                        {"source": src, "deleted_unreached": gone, "also_deleted": sorted(x[0] for x in base),
+                                         "mode": mode, "policy": nm, "with": seen_outs[base][i][pol], "without": got[i][pol]})
     phase["template_runs"] = round(time.time() - t0, 1)
     # 1b. roots_b (the vocabulary of c16_render_depends_only_on_mentioned_roots) against the
     # engine's own static analysis: the root names of Template.analyze().variables
@@ -1264,12 +1310,12 @@ def main(chk: C.Check, build: C.Build) -> None:
     # 2. kernel-level tie
     kitems = dunder_cases()
     kall = kernel_cases(r, thorough)
-    kitems += [k for k in kall if r.random() < (0.55 if thorough else 0.12)]
+    kitems += [k for k in kall if r.random() < (0.55 if thorough else 0.09)]
 
     # 3. oracle beyond the model
     nbeyond = 0
     for src, data, complete in all_filter_sources():
-        if not thorough and r.random() > 0.5:
+        if not thorough and r.random() > 0.3:
             continue
         for ae in (False, True):
             outs = {pol: render_impl(src, data, pol, ae) for pol in POLS}
@@ -1289,7 +1335,7 @@ def main(chk: C.Check, build: C.Build) -> None:
     C.correspond(chk, "c16", IMPORTS, defs, items, what="Undefined.render", shard=150)
     # how many template cases did the model decide (not [outside])?  measured on
     # a seeded sample
-    probe = [it for it in items if r.random() < (0.2 if thorough else 0.3)]
+    probe = [it for it in items if r.random() < (0.2 if thorough else 0.2)]
     rc = C.run_cases("c16in", IMPORTS, defs, [it["inside"] for it in probe], shard=150)
     inside = len(probe) - len(rc["bad"])
     for e in rc["errors"]:
@@ -1314,6 +1360,8 @@ def main(chk: C.Check, build: C.Build) -> None:
         "phase_end_s": phase,
         "kernel_cases": len(kitems),
         "roots_cases": len(ritems),
+        "lazy_site_programs": len(lazy),
+        "lazy_deletion_comparisons": nlazy,
         "oracle_only_sources": nbeyond,
         "exhaustive": False,
         "tier_proved": "interpreter of the C16 fragment (all programs, data and fuel)",
